@@ -62,6 +62,7 @@ def run(ctx) -> None:
     ctx.section("pairing", _pairing, ctx)
     ctx.section("table", _table, ctx)
     ctx.section("recursion-order", _recursion_order, ctx)
+    ctx.section("one-cell", _one_cell, ctx)
     ctx.section("wrappers", _wrappers, ctx)
     ctx.section("resolve", _resolve, ctx)
     ctx.not_decided += ["numeric equality of results (delegated to Python's operator)", "dtype of results (C03/C04)",
@@ -1074,7 +1075,7 @@ def _wrappers(ctx) -> None:
             names = {y[1] for y in _st(c[2][1]) if y[0] == "name"}
             if names & {"Vector", "Iterable", "Sized", "Collection"}:
                 return True
-            return False if names <= {"str", "bytes", "bytearray", "Mapping", "int", "float", "bool", "list", "tuple", "range", "Table", "dict"} else None
+            return False if names <= {"str", "bytes", "bytearray", "complex", "Enum", "Mapping", "int", "float", "bool", "list", "tuple", "range", "Table", "dict"} else None
         if k == "cmp" and len(c) == 4:
             l_, r_ = c[2], c[3]
             sch = lambda t: t[0] == "call" and t[1][0] == "attr" and t[1][2] == "schema" and resolve(t[1][1]) == OTHER
@@ -1192,8 +1193,23 @@ def _resolve(ctx) -> None:
                               " - it would go through __getattr__ broadcasting, not a Vector method"))
 
 
+def _one_cell(ctx) -> None:
+    """Sibling agreement of every `one cell or a sequence of cells?` test (serifscan/onecell.py): each exempts text, numbers and enum
+    members - since Python 3.11 an enum.Flag member iterates over its bits, so an unexempted test adds / stores the bits pairwise."""
+    from ..onecell import REQUIRED, sites
+    ss = sites(ctx.prog)
+    bad = [s_ for s_ in ss if not s_[3]]
+    f = ctx.prog.func("vector.Vector._elementwise_operation")
+    ctx.ob("c.pairing", f, "one-cell-exemptions", len(ss) >= 3 and not bad,
+           f"{len(ss)} scalar-or-sequence tests, each exempting {sorted(REQUIRED)}", f.node,
+           message="; ".join(f"{q} (line {ln}) exempts only {sorted(names)} from its Iterable test: a number or enum member whose class is "
+                             f"iterable (enum.IntFlag: Perm.R | Perm.W) is taken for a sequence of its bits there" for q, ln, names, _ok in bad[:3]))
+
+
 _V, _T = "vector", "table"
 MUTANTS = [
+    dict(id="flag-operand-iterated-over-its-bits", module=_V, count=2, nth=0, old="		if isinstance(other, Iterable) and not isinstance(other, (str, bytes, bytearray, int, float, complex, Enum, Mapping)):\n			if len(self) != len(other):",
+         new="		if isinstance(other, Iterable) and not isinstance(other, (str, bytes, bytearray, Mapping)):\n			if len(self) != len(other):", rules=["c.pairing"], desc="reverts fix 46d03df in the arithmetic kernel"),
     dict(id="table-on-the-right-operands-swapped", module=_V, old="				self._elementwise_operation(col, op_func, op_name, op_symbol) \n				for col in other.cols()",
          new="				col._elementwise_operation(self, op_func, op_name, op_symbol) \n				for col in other.cols()", rules=["a.dispatch"],
          desc="v - T computes T - v (seeded R5-C05-2 in its smallest form)"),
@@ -1206,8 +1222,8 @@ MUTANTS = [
          new="other, operator.rshift, 'bit_rshift', '>>')", rules=["a.dispatch"], desc="operator.rshift on columns is column stacking, not a shift"),
     dict(id="date-compare-other-not-widened", module=_V, old="bool(op(_at_midnight(x), _at_midnight(y)))", new="bool(op(_at_midnight(x), y))",
          rules=["e.wrappers"], desc="reverts fix b2ea82f"),
-    dict(id="mapping-operand-as-sequence", module="vector", old="		if isinstance(other, Iterable) and not isinstance(other, (str, bytes, bytearray, Mapping)):\n			if len(self) != len(other):",
-         new="		if isinstance(other, Iterable) and not isinstance(other, (str, bytes, bytearray)):\n			if len(self) != len(other):", rules=["b.length-before-result"],
+    dict(id="mapping-operand-as-sequence", module="vector", count=2, nth=0, old="		if isinstance(other, Iterable) and not isinstance(other, (str, bytes, bytearray, int, float, complex, Enum, Mapping)):\n			if len(self) != len(other):",
+         new="		if isinstance(other, Iterable) and not isinstance(other, (str, bytes, bytearray, int, float, complex, Enum)):\n			if len(self) != len(other):", rules=["b.length-before-result"],
          desc="reverts fix c01a1e7"),
     dict(id="date-compare-widens-every-element", module="vector", old="	return x if isinstance(x, datetime) else datetime.combine(x, datetime.min.time())",
          new="	return datetime.combine(x, datetime.min.time())", rules=["e.wrappers"], desc="reverts fix ccb2980 (comparison)"),
@@ -1216,7 +1232,7 @@ MUTANTS = [
          new="			return Vector(tuple((date.fromordinal(s.toordinal() + other) if s is not None else None) for s in self._underlying))",
          rules=["e.wrappers"], desc="reverts fix ccb2980 (v + 1 on datetimes returns dates)"),
     dict(id="date-add-list-tuple-only", module="vector",
-         old="		if isinstance(other, Iterable) and not isinstance(other, (Vector, str, bytes, bytearray, Mapping)):\n			# a plain sequence of day counts",
+         old="		if isinstance(other, Iterable) and not isinstance(other, (Vector, str, bytes, bytearray, int, float, complex, Enum, Mapping)):\n			# a plain sequence of day counts",
          new="		if isinstance(other, (list, tuple)):\n			# a plain sequence of day counts", rules=["e.wrappers"], desc="reverts fix 8277ef1"),
     dict(id="fallback-pairs-none", module="vector", count=2, nth=0,
          old="				result_values = tuple(None if (x is None or y is None) else (x, y) for x, y in zip(self, other, strict=True))",
